@@ -8,6 +8,10 @@ import SpiceEv.Cmd.ScenarioRun
 import SpiceEv.Cmd.StrategyUtil
 import SpiceEv.Cmd.Util
 import SpiceEv.Cmd.GenCsv
+import SpiceEv.Cmd.Gen
+import SpiceEv.Cmd.Costs
+import SpiceEv.Cmd.ScheduleGen
+import SpiceEv.Cmd.Battery
 open SpiceEv
 
 def allHandlers : List (String × Handler) :=
@@ -16,6 +20,10 @@ def allHandlers : List (String × Handler) :=
   ++ Cmd.StrategyUtil.handlers
   ++ Cmd.Util.handlers
   ++ Cmd.GenCsv.handlers
+  ++ Cmd.Gen.handlers
+  ++ Cmd.Costs.handlers
+  ++ Cmd.ScheduleGen.handlers
+  ++ Cmd.Battery.handlers
 
 def handle (line : String) : String :=
   match (line.splitOn " ").filter (· ≠ "") with
